@@ -114,6 +114,40 @@ fn history(cfg: &Cfg, rep: &mut Report, permissioned: bool, h: u64, steps: usize
             }
             continue;
         }
+        // ---------------- collected fees leave the forwarder only when its manager sweeps them ----------------
+        if permissioned && rng.chance(1, 12) {
+            let ti = rng.idx(4);
+            let tok = &tokens[ti];
+            let op: Address = if rng.chance(3, 4) { manager.clone() } else { (*rng.pick(&[&stranger, &relayer, &user, &admin])).clone() };
+            let recipient: Address = (*rng.pick(&[&stranger, &admin, &user])).clone();
+            let a = args!(e, tok.clone(), recipient.clone(), op.clone());
+            let signed = rng.chance(5, 6);
+            let parties = [&user, &relayer, &fwd, &stranger, &admin, &manager];
+            let before: Vec<i128> = parties.iter().map(|p| bal(tok, p)).collect();
+            if signed {
+                w.auth(&[(op.clone(), Inv::new(&fwd, "sweep_tokens", a.clone()))]);
+            } else {
+                w.no_auth();
+            }
+            let got: Result<i128, Fail> = invoke(e, &fwd, "sweep_tokens", a);
+            rep.evaluations += 1;
+            let after: Vec<i128> = parties.iter().map(|p| bal(tok, p)).collect();
+            let held = before[2];
+            let want = op == manager && signed && held > 0;
+            rep.op(format!("#{step} sweep_tokens(token {ti}) by {} signed={signed}, forwarder holds {held} -> {:?}", if op == manager { "manager" } else { "another account" }, got.as_ref().map_err(|f| f.tag())));
+            rep.case(format!("{kind}/sweep_tokens/manager={}/signed={signed}/holds={}/{}", op == manager, held > 0, tag(&got)));
+            rep.check("ref", got.is_ok() == want, &format!("C19/sweep/{kind}/sweep_tokens/outcome"), || format!("sweep of token {ti} by manager={} signed={signed} with {held} held: expected ok={want}, got {got:?}", op == manager));
+            let mut expect = before.clone();
+            if got.is_ok() {
+                rep.count("sweeps_ok");
+                expect[2] = 0;
+                let ri = parties.iter().position(|p| **p == recipient).unwrap();
+                expect[ri] += held;
+                rep.check("ref", got == Ok(held), &format!("C19/sweep/{kind}/sweep_tokens/reported-amount"), || format!("sweep reported {got:?}, the forwarder held {held}"));
+            }
+            rep.check("res", after == expect, &format!("C19/sweep/{kind}/sweep_tokens/balances"), || format!("balances [user, relayer, forwarder, stranger, admin, manager] {before:?} -> {after:?}, expected {expect:?} (sweep answered {got:?})"));
+            continue;
+        }
         // ---------------- pre-existing allowance set by the user directly ----------------
         let ti = rng.idx(4);
         let tok = &tokens[ti];
@@ -275,7 +309,7 @@ fn direct_collect(cfg: &Cfg, rep: &mut Report, h: u64) {
 }
 
 pub fn run(cfg: &Cfg, rep: &mut Report) {
-    rep.rule = "Seeded histories on both fee-forwarder examples over 4 Base fee tokens and a counting target: forward with fee/max from {<=0,1,max-1,max,max+1}, expiration on {cur-1,cur,cur+1,cur+50,max_live,max_live+1}, pre-existing allowance below/at/above max, failing target, user = forwarder, user = relayer, relayer with/without the executor role and with/without its authorization; the user's authorization is the exact tuple (3/5) or differs in exactly one field (token, max+-1, expiration, target, function, arguments) or is absent; allow-list enable/disable histories by manager and stranger; collect_fee called directly under both approval strategies with the collecting contract itself as user. Distinct case = (forwarder, fee class, expiration class, allowance class, tuple variant, relayer signs, target ok, outcome).".into();
+    rep.rule = "Seeded histories on both fee-forwarder examples over 4 Base fee tokens and a counting target: forward with fee/max from {<=0,1,max-1,max,max+1}, expiration on {cur-1,cur,cur+1,cur+50,max_live,max_live+1}, pre-existing allowance below/at/above max, failing target, user = forwarder, user = relayer, relayer with/without the executor role and with/without its authorization; the user's authorization is the exact tuple (3/5) or differs in exactly one field (token, max+-1, expiration, target, function, arguments) or is absent; allow-list enable/disable histories by manager and stranger; collect_fee called directly under both approval strategies with the collecting contract itself as user. Distinct case = (forwarder, fee class, expiration class, allowance class, tuple variant, relayer signs, target ok, outcome). On the permissioned forwarder, sweep_tokens by the manager / another account, signed or not: collected fees leave the forwarder only with the manager's authorization, in full, to the named recipient.".into();
     let nh = cfg.pick(30u64, 800);
     let steps = cfg.pick(200usize, 400);
     for k in 0..cfg.pick(2u64, 20) {
